@@ -308,6 +308,15 @@ func (u *Unit) extSpecial(call *ast.CallExpr, key string, f *types.Func, recv *V
 			return []Val{{T: r, S: srt, GT: types.NewSlice(tString)}}, true
 		}
 		return nil, false
+	case "strings.Cut":
+		s0, sep := args[0].T, args[1].T
+		has := "(str.contains " + s0 + " " + sep + ")"
+		idx := "(str.indexof " + s0 + " " + sep + " 0)"
+		return []Val{
+			mkStr(ite(has, "(str.substr "+s0+" 0 "+idx+")", s0))[0],
+			mkStr(ite(has, "(str.substr "+s0+" (+ "+idx+" (str.len "+sep+")) (str.len "+s0+"))", `""`))[0],
+			{T: has, S: "Bool", GT: tBool},
+		}, true
 	case "strings.Split":
 		res := u.callExternalDefault(call, key, f, recv, args, st)
 		if !u.inSpec {
